@@ -7,7 +7,7 @@ cd /verif || exit 2
 [ -f "$OUT/patch.diff" ] || { echo "no patch"; exit 2; }
 ( cd $WT && git checkout -q -- src && git apply "$OUT/patch.diff" ) || { echo "patch does not apply"; exit 2; }
 echo "### check $ID quick against the mutant"
-VERIF_REPO=$WT VERIF_EVIDENCE_DIR=/tmp/mut-ev VERIF_REPLAY_DIR=/tmp/mut-rp ./check $ID quick >/tmp/mut-check-$ID.log 2>&1; RC=$?
+VERIF_REPO=$WT VERIF_EVIDENCE_DIR=/tmp/mut-ev-$ID VERIF_REPLAY_DIR=/tmp/mut-rp-$ID ./check $ID quick >/tmp/mut-check-$ID.log 2>&1; RC=$?
 grep -E "^($ID (quick|thorough):|VIOLATION|violation detail|INFRA|build failed)" /tmp/mut-check-$ID.log | cut -c1-400 | head -12
 echo "check exit=$RC"
 SIGS=$(grep -oE "violation detail: sig=[^ ]+" /tmp/mut-check-$ID.log | sed 's/violation detail: sig=//' | sort -u | tr '\n' ' ')
@@ -27,4 +27,4 @@ m={"property":ID,"source":"independent sub-agent (given only the property text a
 json.dump(m,open(D+"/meta.json","w"),indent=1)
 print("filed",D,"detected=",int(RC)==1)
 PY
-rm -rf /tmp/mut-ev /tmp/mut-rp
+rm -rf /tmp/mut-ev-$ID /tmp/mut-rp-$ID
